@@ -54,6 +54,7 @@ class SimKernel(object):
         self.fork_owner = None  # callback -> owner index
         self.flags = {}         # fd -> status flags set through fcntl(F_SETFL)
         self.hangs = []         # calls that would have blocked for ever on a blocking descriptor
+        self.sig_handlers = {}  # signal number -> handler installed through signal.signal()
         self.jobstopped = []    # live children stopped by SIGSTOP/SIGTSTP and not yet reported to a WUNTRACED waiter
 
     def _fault(self, name):
@@ -289,6 +290,27 @@ class FakeOS(object):
         return _real_os.access(path, mode)
 
 
+def FakeSignal(kernel):
+    """Stands in for the `signal` module inside supervisor.options: a module object with the real module's contents
+    (so that `signal.__dict__` still lists the SIG* names) whose signal() records the handler in the simulated kernel
+    (kernel.sig_handlers) instead of installing it."""
+    import types
+    import signal as _real_signal
+    m = types.ModuleType('signal')
+    m.__dict__.update(_real_signal.__dict__)
+
+    def _signal(signum, handler):
+        old = kernel.sig_handlers.get(int(signum), 0)
+        kernel.sig_handlers[int(signum)] = handler
+        return old
+    m.signal = _signal
+    return m
+
+
+class DaemonKilled(Exception):
+    """A signal whose default action terminates the process reached a daemon that installed no handler for it."""
+
+
 class FakeFcntl(object):
     F_GETFL = 3
     F_SETFL = 4
@@ -368,6 +390,7 @@ def install(kernel):
 
     patch(so, 'os', FakeOS(kernel))
     patch(so, 'fcntl', FakeFcntl(kernel))
+    patch(so, 'signal', FakeSignal(kernel))
     clock = Clock(kernel)
     for mod in (sp, sd, sr, sh):
         if hasattr(mod, 'time'):
